@@ -1235,11 +1235,19 @@ class SyncObj(object):
 
             sendSingle = True
             sendingSerialized = False
+            probing = None
             nextNodeIndex = self.__raftNextIndex[node]
 
             while nextNodeIndex <= self.__getCurrentLogIndex() or sendSingle or sendingSerialized:
                 if nextNodeIndex > self.__raftLog[0][1]:
                     prevLogIdx, prevLogTerm = self.__getPrevLogIndexTerm(nextNodeIndex)
+                    if probing is None:
+                        # Unless the node has confirmed the entry before the first batch, only that
+                        # batch is sent. The following ones would be rejected for another reason
+                        # (unknown index, hint = its log end + 1) and, rejections being applied in
+                        # arrival order, their hint would overwrite the hint of the first rejection
+                        # (term mismatch, hint = prevLogIdx) on every round, for ever.
+                        probing = prevLogIdx is None or self.__raftMatchIndex[node] < prevLogIdx
                     entries = []
                     if nextNodeIndex <= self.__getCurrentLogIndex():
                         entries = self.__getEntries(nextNodeIndex, None, batchSizeBytes)
@@ -1279,6 +1287,8 @@ class SyncObj(object):
                         self.__transport.send(node, message)
                         if node not in self.__connectedNodes:
                             break
+                    if probing:
+                        break
                 else:
                     transmissionData = self.__serializer.getTransmissionData(node)
                     message = {
